@@ -180,6 +180,16 @@ func sameKind(i ssa.Instruction, kind string) bool {
 }
 
 func (x *Exec) addObl(s *State, kind, label string, goal *smt.Term, props []string, src string) {
+	if kind == "pre" && x.c != nil {
+		for _, h := range x.c.Hints {
+			if h == "callee-preconditions-assumed" {
+				// abstracted execution of a function whose callees cannot carry an invariant across it (e.g. an event
+				// loop around trusted, unrestricted callees): call-site preconditions are assumed and reported as such
+				x.E.Note("%s: call-site preconditions of callees are ASSUMED, not checked (hint callee-preconditions-assumed)", funcDisplayName(x.fn))
+				return
+			}
+		}
+	}
 	if goal.IsTrue() {
 		// trivially discharged by simplification; still counted
 	}
@@ -647,6 +657,11 @@ type FuncResult struct {
 func (e *Engine) VerifyFunc(c *Contract, maxPaths int) *FuncResult {
 	x := &Exec{E: e, fn: c.Fn, c: c, wrote: map[string]bool{}, entryHeap: map[string]*smt.Term{}, epoch: "0",
 		maxPaths: maxPaths, counters: map[string]int{}, isInit: c.IsInit, mergeAfter: MergeAfter}
+	for _, h := range c.Hints {
+		if h == "merge-from-start" {
+			x.mergeAfter = 0 // large dispatch functions: join paths from the first branch on
+		}
+	}
 	res := &FuncResult{Fn: c.Fn, Name: funcDisplayName(c.Fn)}
 	func() {
 		defer func() {
@@ -1208,6 +1223,12 @@ func (x *Exec) execFrom(s *State, b *ssa.BasicBlock, start int, prev *ssa.BasicB
 						}
 						x.curStop, x.curOut = saveStop, saveOut
 						if len(x.unsup) > 0 || len(arr) == 0 {
+							return
+						}
+						if J == x.curStop && x.curOut != nil {
+							// the enclosing branch joins at the same block (a && b && c): hand the arrivals on with
+							// their real predecessors, so the join's phis can select by edge
+							*x.curOut = append(*x.curOut, arr...)
 							return
 						}
 						if m, ok := x.mergeStates(arr, base); ok {
